@@ -90,10 +90,13 @@ Hypothesis HL : links_ok pay st T LS.
 Hypothesis Hdata : forall ent, In ent T -> e_data pay ent = (colf (e_key pay ent), [idf (e_key pay ent)]).
 Variable g : list node_t.
 Hypothesis Hc : compress_kmers pay pay_reduce (pay_join mode) st T = Some g.
+Let HLl : links_loose pay st T LS := links_ok_loose pay st T LS HL.
+Let Hcl0 := lo_closed pay st T LS HL.
+Let Hsrc0 := lo_src pay st T LS HL.
 
-Local Notation Hsym := (links_exts_sym pay K st HK T LS Hok HL).
-Local Notation Hpal := (links_exts_sym_pal pay K st HK T LS Hok HL).
-Local Notation Hcl := (links_exts_closed pay K st T LS Hok HL).
+Local Notation Hsym := (links_exts_sym pay K st HK T LS Hok HLl).
+Local Notation Hpal := (links_exts_sym_pal pay K st HK T LS Hok HLl).
+Local Notation Hcl := (links_exts_closed pay K st T LS Hok HLl (lo_closed pay st T LS HL)).
 Local Notation oexts := (Unitig.oexts pay st T).
 Local Notation ck := (canon_k st).
 Local Notation join := (pay_join mode).
@@ -104,18 +107,18 @@ Theorem direct_graph_rvalid : rvalid pay K st g.
 Proof. exact (compress_kmers_rvalid pay pay_reduce join K st HK (join_sym mode) T Hok Hsym Hpal Hcl g Hc). Qed.
 
 Lemma nd_len_wf n : In n g -> K <= length (nd_seq n) /\ wf_dna (nd_seq n).
-Proof. exact (node_len_wf K st mode HK T LS Hok HL g Hc n). Qed.
+Proof. exact (node_len_wf K st mode HK T LS Hok HLl g Hc n). Qed.
 Lemma nd_term n s : In n g -> exists e, oexts (term_kmer K (nd_seq n) s) = Some e /\
   forall b, In b bases4 -> e_has_ext (nd_exts n) (dirb s) b = e_has_ext e (dirb s) b.
-Proof. exact (node_term K st mode HK T LS Hok HL g Hc n s). Qed.
+Proof. exact (node_term K st mode HK T LS Hok HLl g Hc n s). Qed.
 Lemma nd_exts_lt n : In n g -> (nd_exts n < 256)%N.
 Proof.
   intro Hn. destruct direct_graph_rvalid as (Hno & _). rewrite Forall_forall in Hno. now destruct (Hno n Hn) as (_ & _ & H).
 Qed.
 Lemma ox_lt x e : oexts x = Some e -> (e < 256)%N.
-Proof. exact (oexts_lt_ K st HK T LS Hok HL x e). Qed.
+Proof. exact (oexts_lt_ K st HK T LS Hok HLl x e). Qed.
 Lemma gk_nodup : NoDup (graph_kmers K st g).
-Proof. exact (graph_kmers_nodup K st mode HK T LS Hok HL g Hc). Qed.
+Proof. exact (graph_kmers_nodup K st mode HK T LS Hok HLl g Hc). Qed.
 Lemma term_in_node n s : In n g -> In (cn st (term_kmer K (nd_seq n) s)) (node_kmers K st n).
 Proof.
   intro Hn. unfold node_kmers. apply in_map. apply term_in_kmers; [exact HK | now destruct (nd_len_wf n Hn)].
@@ -129,7 +132,7 @@ Lemma node_join n m x y : In n g -> In m g -> In x (node_kmers K st n) -> In y (
 Proof.
   intros Hn Hm Hx Hy Hj. unfold kjoin_f. unfold pay_join in Hj.
   destruct (mode =? 0)%N eqn:E; [reflexivity|]. cbn [orb]. apply N.eqb_neq in E.
-  pose proof (graph_payload K st mode HK T LS idf colf Hok HL Hdata g Hc) as P.
+  pose proof (graph_payload K st mode HK T LS idf colf Hok HLl Hdata g Hc) as P.
   destruct (P n Hn) as (_ & Pn & _). destruct (P m Hm) as (_ & Pm & _).
   rewrite (Pn E x Hx), (Pm E y Hy). exact Hj.
 Qed.
@@ -223,10 +226,10 @@ Proof.
   assert (Hms : exists i j, kkey pay T i = ck a /\ kkey pay T j = ck nk /\
                             (mstep pay join st T i j \/ mstep pay join st T j i)).
   { destruct d.
-    - destruct (fm_mstep K st mode HK T LS idf colf Hok HL Hdata g Hc nk a Hfm) as (i & j & Ei & Ej' & Hms).
+    - destruct (fm_mstep K st mode HK T LS idf colf Hok HLl Hdata g Hc Hcl0 Hsrc0 nk a Hfm) as (i & j & Ei & Ej' & Hms).
       + unfold kjoin_f in *. destruct (mode =? 0)%N; [reflexivity|]. cbn [orb] in *. now rewrite N.eqb_sym.
       + exists j, i. auto.
-    - destruct (fm_mstep K st mode HK T LS idf colf Hok HL Hdata g Hc a nk Hfm Hkj) as (i & j & Ei & Ej' & Hms). exists i, j. auto. }
+    - destruct (fm_mstep K st mode HK T LS idf colf Hok HLl Hdata g Hc Hcl0 Hsrc0 a nk Hfm Hkj) as (i & j & Ei & Ej' & Hms). exists i, j. auto. }
   destruct Hms as (i & j & Ei & Ej' & Hms).
   destruct (no_mergeable_pair_across pay pay_reduce join K st HK T Hok Hsym (join_sym mode)) as (g' & Hc' & Hsame).
   assert (g' = g) by congruence. subst g'.
